@@ -288,11 +288,20 @@ def load_known(prop):
     return out
 
 
+def _json_safe(x):
+    """dict keys of any type become strings (json.dump cannot sort mixed keys), tuples become lists"""
+    if isinstance(x, dict):
+        return {str(k): _json_safe(v) for k, v in x.items()}
+    if isinstance(x, (list, tuple, set)):
+        return [_json_safe(v) for v in x]
+    return x
+
+
 def write_replay(prop, seed, k, data):
     os.makedirs(REPLAYS, exist_ok=True)
     path = os.path.join(REPLAYS, "%s-%s-%s.json" % (prop, seed, k))
     with open(path, "w") as f:
-        json.dump(data, f, indent=1, sort_keys=True, default=str)
+        json.dump(_json_safe(data), f, indent=1, sort_keys=True, default=str)
     return path
 
 
